@@ -117,6 +117,13 @@ def main(tier):
             for pos in range(len(text) + 1):
                 for tv in (" ", "\t", "/*c*/"):
                     add(text[:pos] + tv + text[pos:], {"kind": "trivia-insertion", "name": name})
+    # one more TOKEN than a statement form has room for, at every position: a register suffix behind a complete operand
+    # (`lda ($10,x),y`), a second comma, a stray parenthesis ...: the extra token is reported or kept, never swallowed
+    for name, text in corp:
+        if name.startswith("form-"):
+            for pos in range(len(text) + 1):
+                for tk in (",x", ",y", ",", ")", "(", "#", "=", ":", "{", "}", '"s"', "a", "1"):
+                    add(text[:pos] + tk + text[pos:], {"kind": "token-insertion", "name": name})
     # every layout/case variant of every statement form (the variant space of spec/Layout, enumerated by TLC)
     sys.path.insert(0, os.path.join(os.path.dirname(os.path.abspath(__file__)), "..", "C08"))
     import importlib.util
